@@ -233,13 +233,15 @@ class Run:
         self.log("drive %s: %s" % (family, p.stdout.strip().splitlines()[-1] if p.stdout.strip() else ""))
         return out
 
-    def validate_batch(self, trace, stage, consts=None, module="XBatch", timeout=3600):
+    def validate_batch(self, trace, stage, consts=None, module="XBatch", timeout=3600, drift=False, env_extra=None):
         """Flow B, part 2: TLC validates every recorded event against the
         specification; events the specification does not allow are returned."""
         nlines = sum(1 for _ in open(trace))
         c = {"Chunk": 64}
         c.update(consts or {})
-        r = self.tlc(module, c, invariants=("Validate",), name=stage, env_extra={"VERIF_TRACE": trace}, timeout=timeout)
+        ee = {"VERIF_TRACE": trace}
+        ee.update(env_extra or {})
+        r = self.tlc(module, c, invariants=("Validate",), name=stage, env_extra=ee, timeout=timeout)
         # every event must have been visited: one state per event + chunk states + initial
         rejected = []
         if os.path.exists(r["outfile"]):
@@ -261,6 +263,17 @@ class Run:
                        "case": {"d": ev.get("d"), "e": ev.get("e"), "ns": ev.get("ns"), "nav": ev.get("nav")}, "event": ev})
         self.traces += 1
         self.evaluations += nlines
+        if drift:
+            # validation against the implementation-shaped model: a rejection is model drift, never a verdict;
+            # events outside the modelled fragment are counted
+            skipped = [m for m in ms if m["fail"] == "skip"]
+            ms = [m for m in ms if m["fail"] != "skip"]
+            self.stages.append({"stage": stage, "flow": "B", "events": nlines, "skipped": len(skipped), "drift": len(ms)})
+            self.log("validate %s: %d events, %d outside the modelled fragment, %d differ from the model" % (stage, nlines, len(skipped), len(ms)))
+            if nlines and len(skipped) * 2 > nlines:
+                raise ToolingError("%s: more than half of the events are outside the modelled fragment" % stage)
+            self.drift = getattr(self, "drift", []) + ms
+            return ms
         self.stages.append({"stage": stage, "flow": "B", "events": nlines, "rejected": len(rejected)})
         if events:
             self.samples.append(events[min(len(events) - 1, 1)])
